@@ -149,6 +149,10 @@ pub struct Compiler {
     constants: Vec<Object>,
     instructions: Vec<u8>,
     loop_contexts: Vec<LoopContext>,
+
+    /// The number of values that are on the stack (at run-time) because we are in the middle of compiling
+    /// an expression: the left operand of an operator, the first elements of an array, arguments, etc.
+    pending_values: usize,
     gc: GC,
 }
 
@@ -161,13 +165,18 @@ struct LoopContext {
     /// Stores the index of all JUMP instructions within the current loop context that originate from a break statement
     /// Once this loop context ends, these instructions should have their operands updated to the first instruction that follows this loop
     break_instructions: Vec<usize>,
+
+    /// The number of pending values (see Compiler::pending_values) at the start of the loop.
+    /// Whatever is pending on top of that when we leave an iteration early has to be discarded first.
+    pending_values: usize,
 }
 
 impl LoopContext {
-    fn new(start: usize) -> Self {
+    fn new(start: usize, pending_values: usize) -> Self {
         Self {
             start,
             break_instructions: Vec::new(),
+            pending_values,
         }
     }
 }
@@ -189,6 +198,7 @@ impl Compiler {
             instructions: Vec::new(),
             constants: Vec::new(),
             loop_contexts: Vec::new(),
+            pending_values: 0,
             gc: GC::new(),
         }
     }
@@ -209,6 +219,7 @@ impl Compiler {
             if let Err(e) = self.compile_statement(s) {
                 self.instructions.truncate(entry);
                 self.loop_contexts.clear();
+                self.pending_values = 0;
                 self.symbols.rollback(num_globals);
                 return Err(e);
             }
@@ -326,33 +337,46 @@ impl Compiler {
                 self.emit_opcode(OpCode::ReturnValue);
             }
             Stmt::Break => {
-                self.emit_opcode(OpCode::Null);
-                let pos = self.instructions.len();
-                self.emit_opcode(OpCode::Jump);
-                self.emit_u16(JUMP_PLACEHOLDER);
-                let ctx = match self.loop_contexts.last_mut() {
-                    Some(ctx) => ctx,
+                let pending_values = match self.loop_contexts.last() {
+                    Some(ctx) => ctx.pending_values,
                     None => {
                         return Err(Error::SyntaxError("foutief gebruik van 'stop'".to_string()))
                     }
                 };
-                ctx.break_instructions.push(pos);
+                self.emit_discard_pending_values(pending_values);
+                self.emit_opcode(OpCode::Null);
+                let pos = self.instructions.len();
+                self.emit_opcode(OpCode::Jump);
+                self.emit_u16(JUMP_PLACEHOLDER);
+                self.loop_contexts
+                    .last_mut()
+                    .unwrap()
+                    .break_instructions
+                    .push(pos);
             }
             Stmt::Continue => {
-                self.emit_opcode(OpCode::Null);
-
-                let pos = match self.loop_contexts.iter().last() {
-                    Some(ctx) => Ok(ctx.start),
+                let (pos, pending_values) = match self.loop_contexts.iter().last() {
+                    Some(ctx) => Ok((ctx.start, ctx.pending_values)),
                     None => Err(Error::SyntaxError(
                         "foutief gebruik van 'volgende'".to_string(),
                     )),
                 }?;
+                self.emit_discard_pending_values(pending_values);
+                self.emit_opcode(OpCode::Null);
                 self.emit_opcode(OpCode::Jump);
                 self.emit_u16(operand(pos)?);
             }
         }
 
         Ok(())
+    }
+
+    /// Emits the instructions to discard the values of half-evaluated expressions, back to the given number.
+    /// Used when leaving an iteration of a loop from the middle of an expression (1 + als x { volgende } ...).
+    fn emit_discard_pending_values(&mut self, keep: usize) {
+        for _ in keep..self.pending_values {
+            self.emit_opcode(OpCode::Pop);
+        }
     }
 
     fn compile_operator(&mut self, operator: &Operator) {
@@ -485,8 +509,11 @@ impl Compiler {
                     Expr::Identifier(name) => name,
                     Expr::Index { left, index } => {
                         self.compile_expression(left)?;
+                        self.pending_values += 1;
                         self.compile_expression(index)?;
+                        self.pending_values += 1;
                         self.compile_expression(right)?;
+                        self.pending_values -= 2;
                         self.emit_opcode(OpCode::IndexSet);
                         return Ok(());
                     }
@@ -565,7 +592,9 @@ impl Compiler {
 
                 // If that failed because we haven't implemented a specialized instruction yet, compile it as a sequence of normal instructions
                 self.compile_expression(left)?;
+                self.pending_values += 1;
                 self.compile_expression(right)?;
+                self.pending_values -= 1;
                 self.compile_operator(operator);
             }
             Expr::If {
@@ -601,8 +630,10 @@ impl Compiler {
             Expr::While { condition, body } => {
                 // TODO: Can we get rid of this now that empty block statement emit a NULL?
                 self.emit_opcode(OpCode::Null);
-                self.loop_contexts
-                    .push(LoopContext::new(self.instructions.len()));
+                self.loop_contexts.push(LoopContext::new(
+                    self.instructions.len(),
+                    self.pending_values,
+                ));
                 let pos_before_condition = self.instructions.len();
                 self.compile_expression(condition)?;
 
@@ -645,6 +676,7 @@ impl Compiler {
 
                 // Loops of the surrounding code are out of reach for stop / volgende inside this function
                 let outer_loop_contexts = std::mem::take(&mut self.loop_contexts);
+                let outer_pending_values = std::mem::take(&mut self.pending_values);
 
                 // Compile function in a new scope
                 self.symbols.new_context();
@@ -673,6 +705,7 @@ impl Compiler {
                 // Switch back to previous scope again
                 let num_locals = self.symbols.leave_context();
                 self.loop_contexts = outer_loop_contexts;
+                self.pending_values = outer_pending_values;
 
                 // Create function object and store as constant
                 let obj = Object::function(
@@ -700,7 +733,9 @@ impl Compiler {
             Expr::Call { left, arguments } => 'compile_call: {
                 for a in arguments {
                     self.compile_expression(a)?;
+                    self.pending_values += 1;
                 }
+                self.pending_values -= arguments.len();
 
                 if let Expr::Identifier(name) = &**left {
                     if let Some(builtin) = builtins::resolve(name) {
@@ -718,14 +753,18 @@ impl Compiler {
             Expr::Array { values } => {
                 for v in values {
                     self.compile_expression(v)?;
+                    self.pending_values += 1;
                 }
+                self.pending_values -= values.len();
                 self.emit_opcode(OpCode::Array);
                 self.emit_u16(operand(values.len())?);
             }
 
             Expr::Index { left, index } => {
                 self.compile_expression(left)?;
+                self.pending_values += 1;
                 self.compile_expression(index)?;
+                self.pending_values -= 1;
                 self.emit_opcode(OpCode::IndexGet);
             }
         }
